@@ -866,12 +866,13 @@ def _fold_table(P: Program, mod, name: str) -> Optional[dict]:
     if src_list is None:
         return None
     allowed_calls = {"replace", "strip", "lstrip", "rstrip", "lower", "upper", "isalpha", "isalnum", "isidentifier", "startswith", "endswith", "len", "isupper", "islower"}
+    walrus = {n.target.id for n in ast.walk(tgt) if isinstance(n, ast.NamedExpr) and isinstance(n.target, ast.Name)}
     for n in ast.walk(tgt):
         if isinstance(n, ast.Call):
             nm = n.func.attr if isinstance(n.func, ast.Attribute) else (n.func.id if isinstance(n.func, ast.Name) else None)
             if nm not in allowed_calls:
                 return None
-        if isinstance(n, ast.Name) and n.id not in (gen.target.id, gen.iter.id, "len"):
+        if isinstance(n, ast.Name) and n.id not in (gen.target.id, gen.iter.id, "len") and n.id not in walrus:
             return None
     code = compile(ast.Expression(body=tgt), "<fold>", "eval")
     return eval(code, {"__builtins__": {"len": len}}, {gen.iter.id: src_list})  # constant folding of a literal table
